@@ -25,6 +25,40 @@ type known struct {
 
 type kenv map[types.Object]known
 
+// fieldKey names field f of struct variable o in a kenv (a pseudo object per pair).
+type fieldVar struct {
+	types.Object
+	field string
+}
+
+var fieldVars = map[types.Object]map[string]*fieldVar{}
+
+func fieldOf(o types.Object, f string) types.Object {
+	m := fieldVars[o]
+	if m == nil {
+		m = map[string]*fieldVar{}
+		fieldVars[o] = m
+	}
+	if m[f] == nil {
+		m[f] = &fieldVar{o, f}
+	}
+	return m[f]
+}
+
+// envObj: the kenv key an expression denotes: a variable, or a field of a struct variable.
+func envObj(info *types.Info, e ast.Expr) types.Object {
+	e = ast.Unparen(e)
+	if sel, ok := e.(*ast.SelectorExpr); ok {
+		if o := Obj(info, sel.X); o != nil {
+			if _, isVar := o.(*types.Var); isVar {
+				return fieldOf(o, sel.Sel.Name)
+			}
+		}
+		return nil
+	}
+	return Obj(info, e)
+}
+
 // evalCond evaluates a boolean expression under env; ok is false when undecided.
 func evalCond(info *types.Info, e ast.Expr, env kenv) (val, ok bool) {
 	e = ast.Unparen(e)
@@ -52,7 +86,7 @@ func evalCond(info *types.Info, e ast.Expr, env kenv) (val, ok bool) {
 			return false, ka && kb
 		case token.EQL, token.NEQ, token.LSS, token.LEQ, token.GTR, token.GEQ:
 			for _, p := range [][2]ast.Expr{{x.X, x.Y}, {x.Y, x.X}} {
-				v, has := env[Obj(info, p[0])]
+				v, has := env[envObj(info, p[0])]
 				if !has {
 					continue
 				}
@@ -83,6 +117,10 @@ func evalCond(info *types.Info, e ast.Expr, env kenv) (val, ok bool) {
 					return (tv.Value.String() == "true") == v.b == (op == token.EQL), true
 				}
 			}
+		}
+	case *ast.SelectorExpr:
+		if v, has := env[envObj(info, x)]; has && v.kind == 3 {
+			return v.b, true
 		}
 	case *ast.Ident:
 		if v, has := env[Obj(info, x)]; has && v.kind == 3 {
